@@ -243,7 +243,9 @@ def judge(ctx, whole, strict, log, at_index=None):
     if has_md:
         ctx.count("trees_with_metadata")
     try:
-        result = mvalidate.prune(t, strict=strict) if strict else (mvalidate.prune(t) if ctx.rng.random() < 0.5 else mvalidate.prune(t, False))
+        # (the flag as programs pass it: True/False, or a truthy / falsy value read from a configuration)
+        result = mvalidate.prune(t, strict=ctx.rng.choice([True, True, 1, "yes"])) if strict else \
+            (mvalidate.prune(t) if ctx.rng.random() < 0.5 else mvalidate.prune(t, ctx.rng.choice([False, 0, None])))
     except Exception as e:
         ctx.violation(f"prune-raises:{type(e).__name__}@{emlkit.raise_site(e)}|{mode}", f"validate.prune({mode}) raised {e!r}", wit)
         return
